@@ -1,0 +1,67 @@
+//go:build verif
+
+package value
+
+// Verification hook (add-only, compiled only with -tags verif): read access to the type-pair
+// dispatch tables of the binary operators, and to the materialisation state of a list.
+
+// VerifOpMatrix describes the dispatch table of one binary operator of a FunctionGenerator.
+type VerifOpMatrix struct {
+	Op string
+	// Wrapper names the implementation that sits in front of the plain matrix:
+	// "" (none), "deepEqual" (lists and maps are compared before the matrix is consulted),
+	// "stringAdd" (a string on the left converts the right operand to a string).
+	Wrapper string
+	// Pairs lists the registered (left type id, right type id) combinations.
+	Pairs [][2]int
+}
+
+// VerifOpMatrices returns, for every binary operator whose implementation is an operation matrix
+// (possibly wrapped), the registered type pairs; operators implemented by a plain function are
+// listed in the second result.
+func VerifOpMatrices(fg *FunctionGenerator, ops []string) (matrices []VerifOpMatrix, plain []string) {
+	for _, op := range ops {
+		impl := fg.GetOpImpl(op)
+		wrapper := ""
+		var simple *operationMatrixSimple
+		switch m := impl.(type) {
+		case *operationMatrixSimple:
+			simple = m
+		case *operationMatrixDeepEqual:
+			wrapper = "deepEqual"
+			simple, _ = m.equal.(*operationMatrixSimple)
+		case operationMatrixStringAdd:
+			wrapper = "stringAdd"
+			simple, _ = m.parent.(*operationMatrixSimple)
+		}
+		if simple == nil {
+			plain = append(plain, op)
+			continue
+		}
+		vm := VerifOpMatrix{Op: op, Wrapper: wrapper}
+		for a, line := range simple.matrix {
+			for b, oi := range line {
+				if oi != nil {
+					vm.Pairs = append(vm.Pairs, [2]int{a, b})
+				}
+			}
+		}
+		matrices = append(matrices, vm)
+	}
+	return
+}
+
+// VerifTypeNames returns the names of the registered types, indexed by type id
+// (ids start at 1; entry 0 is empty).
+func VerifTypeNames(fg *FunctionGenerator) []string {
+	var names []string
+	for i := Type(0); i <= fg.typeId; i++ {
+		names = append(names, fg.typeDescriptions[i].Name)
+	}
+	return names
+}
+
+// VerifItemsPresent reports whether the items of the list are materialised (itemsPresent).
+func VerifItemsPresent(l *List) bool {
+	return l.itemsPresent
+}
